@@ -1,6 +1,6 @@
 (* C08 obligations.  Statements only; proofs are in SacnTrack/SacnProofs/SacnThms/ArtProofs. *)
 From OlaBase Require Import Bytes.
-From C08 Require Import Gen Model Spec SacnThms Final.
+From C08 Require Import Gen Model Spec SacnThms TextSpec ArtDistinct Final.
 Local Open Scope N_scope.
 
 (* the property's literal numbers are the constants of the checked-out tree *)
@@ -92,11 +92,11 @@ Theorem c08_sacn_terminate :
 Proof. exact c08_sacn_terminate_l. Qed.
 Print Assumptions c08_sacn_terminate.
 
-(* Art-Net, merge: after any history the port has exactly two sender slots; when an ArtDmx packet is
-   accepted (callback ran) the sender occupies one slot with this packet's frame and time, every other
-   occupied slot is an unchanged earlier slot heard within the last 10 s (or a second slot of the same
-   sender address), and the port buffer is the sender's frame in LTP mode and the slot-wise maximum of
-   the occupied slots in HTP mode. *)
+(* Art-Net, merge: after any history the port has exactly two sender slots with pairwise distinct
+   (non-wildcard) addresses; when an ArtDmx packet is accepted (callback ran) the sender occupies one
+   slot with this packet's frame and time, every other occupied slot is an unchanged earlier slot of a
+   DIFFERENT sender heard within the last 10 s, and the port buffer is the sender's frame in LTP mode
+   and the slot-wise maximum of the occupied slots in HTP mode. *)
 Theorem c08_artnet_merge :
   forall (c : acfg) (h : list (N * apkt)) (now : N) (k : apkt) (port' : aport),
     let port := arun c init_aport h in
@@ -106,8 +106,9 @@ Theorem c08_artnet_merge :
     length (ap_srcs port') = 2%nat /\
     In me (ap_srcs port') /\
     (forall t, In t (ap_srcs port') ->
-       t = me \/ a_addr t = 0 \/ a_addr t = k_addr k \/
-       (In t (ap_srcs port) /\ now <= a_ts t + 10000000)) /\
+       t = me \/ a_addr t = 0 \/
+       (In t (ap_srcs port) /\ now <= a_ts t + 10000000 /\ a_addr t <> k_addr k)) /\
+    adistinct (ap_srcs port') /\
     (ac_ltp c = true -> ap_buf port' = frame) /\
     (ac_ltp c = false -> k_addr k <> 0 ->
        htp_of (map a_buf (filter (fun s => negb (a_addr s =? 0)) (ap_srcs port'))) (ap_buf port')).
@@ -123,6 +124,33 @@ Theorem c08_artnet_third :
     art_handle c now port k = (port, false).
 Proof. exact c08_artnet_third_l. Qed.
 Print Assumptions c08_artnet_third.
+
+(* sACN, uint8_t range: for every history of packets whose sequence numbers are bytes, every stored
+   sequence number is a byte (discharges the range hypotheses of c08_sacn_ignore / _terminate). *)
+Theorem c08_sacn_seq_range :
+  forall (c : cfg) (h : list (N * pkt)),
+    (forall np, In np h -> p_seq (snd np) < 256) ->
+    forall s, In s (u_srcs (fst (grun c init_ust [] h))) -> s_seq s < 256.
+Proof. exact c08_sacn_seq_range_l. Qed.
+Print Assumptions c08_sacn_seq_range.
+
+(* sACN, refinement of the property TEXT (TextSpec.v: per CID the latest in-sequence frame, priority,
+   last-accepted time, terminated flag; live = not terminated and within 2.5 s; output = slot-wise
+   maximum over the live sources at the highest priority among live sources, at most 6).
+   For every history with non-decreasing times that satisfies the guards of TextSpec.guard at every
+   packet (G_seq, G_flat, G_cap - evaluated on the text-level state only), whenever the receiver
+   merges, its buffer EQUALS the text-level output.  PARTIAL: the guards are sufficient, not
+   necessary; in particular G_flat (all concurrently live sources share one priority whenever a data
+   packet arrives) excludes every history with concurrent different priorities, not only those on
+   which the implemented hand-over rule departs from the text (Examples ex_departure_* below). *)
+Theorem c08_sacn_refines_text_partial :
+  forall (c : cfg) (h : list (N * pkt)) (now : N) (p : pkt) (st' : ust) acc cb,
+    (forall np, In np h -> p_seq (snd np) < 256) -> p_seq p < 256 ->
+    guards c 0 [] h -> last_time 0 h <= now -> guard c now (trun c [] h) p ->
+    handle c now (run c init_ust h) p = (st', OMerge acc cb) ->
+    u_buf st' = text_out now (tstep c now (trun c [] h) p).
+Proof. exact c08_sacn_refines_text_partial_l. Qed.
+Print Assumptions c08_sacn_refines_text_partial.
 
 (* hypotheses are satisfiable / the theorems are not vacuous *)
 Definition ex_pkt (cid prio seq : N) (term : bool) (slots : list N) : pkt :=
@@ -155,3 +183,59 @@ Example ex_art_third :
   fst (art_handle (mkAC 4 35 false) 10000101 port (mkK 3 4 35 2 [9; 9])) =
     mkP [mkA 3 10000101 [9; 9]; mkA 2 200 [3; 1]] true [9; 9].
 Proof. vm_compute. repeat split. Qed.
+
+(* the guards are satisfiable: two sources at one priority, merged, text-level output equal *)
+Example ex_text_agrees :
+  let h := [(100, ex_pkt 1 100 0 false [1; 9; 3])] in
+  let p := ex_pkt 2 100 0 false [5; 2] in
+  guards ex_cfg 0 [] h /\ guard ex_cfg 200 (trun ex_cfg [] h) p /\
+  u_buf (fst (handle ex_cfg 200 (run ex_cfg init_ust h) p)) = [5; 9; 3] /\
+  text_out 200 (tstep ex_cfg 200 (trun ex_cfg [] h) p) = [5; 9; 3].
+Proof.
+  cbn [guards]. split; [|split; [|split; vm_compute; reflexivity]].
+  - split; [vm_compute; discriminate|]. split; [|exact I].
+    unfold guard. replace (classify ex_cfg (ex_pkt 1 100 0 false [1; 9; 3])) with (Some ([1; 9; 3], true)) by (vm_compute; reflexivity).
+    split; [intros r H; discriminate H|]. intros _. split; [intros cid r _ H; discriminate H | cbn; lia].
+  - unfold guard. replace (classify ex_cfg (ex_pkt 2 100 0 false [5; 2])) with (Some ([5; 2], true)) by (vm_compute; reflexivity).
+    split; [intros r H; vm_compute in H; discriminate H|]. intros _. split.
+    + intros cid r Hc H L. vm_compute in H. destruct cid as [|[ | |]]; try discriminate H; try (injection H as <-; reflexivity).
+      all: try (destruct p0; discriminate H).
+    + vm_compute. lia.
+Qed.
+
+(* DEPARTURE D1 (priority hand-down): source 1 sends at priority 100, source 2 takes over at 200 and
+   terminates 0.1 ms later.  Text: source 1 is live (0.2 ms old) and now at the highest priority, so the
+   output is its frame [9].  Receiver: sources below the active priority are not tracked, the output is
+   EMPTY until source 1's next packet.  (G_flat fails at the second packet.) *)
+Example ex_departure_handdown :
+  let h := [(100, ex_pkt 1 100 0 false [9]); (200, ex_pkt 2 200 0 false [1])] in
+  let p := ex_pkt 2 200 1 true [1] in
+  handle ex_cfg 300 (run ex_cfg init_ust h) p = (mkU [] 0 0 [], OMerge None false) /\
+  text_out 300 (tstep ex_cfg 300 (trun ex_cfg [] h) p) = [9].
+Proof. vm_compute. split; reflexivity. Qed.
+
+(* DEPARTURE D2 (discard without re-merge): sources 1 and 2 are merged; source 1 falls silent; 2.5 s
+   + 1 us later an OLD packet of source 2 arrives: it is discarded, source 1 is dropped from the table,
+   but the buffer is not re-merged and still contains source 1's slot (9) although source 1 stopped
+   counting.  The theorems therefore compare outputs at merges only. *)
+Example ex_departure_stale_after_discard :
+  let h := [(100, ex_pkt 1 100 0 false [9; 0]); (100, ex_pkt 2 100 5 false [1; 200])] in
+  let p := ex_pkt 2 100 4 false [1; 1] in
+  handle ex_cfg 2500101 (run ex_cfg init_ust h) p =
+    (mkU [9; 200] 100 100 [mkSrc 2 5 100 [1; 200]], ODiscard) /\
+  text_out 2500101 (tstep ex_cfg 2500101 (trun ex_cfg [] h) p) = [1; 1].
+Proof. vm_compute. split; reflexivity. Qed.
+
+(* DEPARTURE D3 (sequence window of a returning sender): a lone sender falls silent for 3 s and returns
+   with a sequence number 11 behind.  TextSpec scopes "the last accepted one" to a source that still
+   counts, so the text-level output is the new frame; the receiver still applies the window (no other
+   sender's packet swept the stale entry) and discards.  Under the LITERAL wording of the property the
+   receiver's discard is correct; conversely the receiver forgets the sequence number of a source once
+   it is swept, terminated or outranked.  (G_seq fails.) *)
+Example ex_departure_returning_sender :
+  let h := [(100, ex_pkt 1 100 5 false [1])] in
+  let p := ex_pkt 1 100 250 false [7] in
+  snd (handle ex_cfg 3000100 (run ex_cfg init_ust h) p) = ODiscard /\
+  u_buf (fst (handle ex_cfg 3000100 (run ex_cfg init_ust h) p)) = [1] /\
+  text_out 3000100 (tstep ex_cfg 3000100 (trun ex_cfg [] h) p) = [7].
+Proof. vm_compute. repeat split; reflexivity. Qed.
